@@ -93,6 +93,29 @@ def build(spec):
             q = _qscalar(v)
             F[i, i] = [q.w, q.x, q.y, q.z]
         A = qalg.from_comps(F)
+    elif g == "hess":
+        n = spec["n"]
+        F = _rng(spec["seed"]).standard_normal((n, n, 4))
+        for i in range(n):
+            for j in range(n):
+                if i > j + 1:
+                    F[i, j] = 0.0
+        A = qalg.from_comps(F)
+    elif g == "tridiag_herm":
+        n = spec["n"]
+        rng = _rng(spec["seed"])
+        F = np.zeros((n, n, 4))
+        for i in range(n):
+            F[i, i, 0] = rng.standard_normal()
+            if i + 1 < n:
+                q = rng.standard_normal(4)
+                F[i, i + 1] = q
+                F[i + 1, i] = q * np.array([1.0, -1.0, -1.0, -1.0])
+        A = qalg.from_comps(F)
+    elif g == "realq":
+        F = np.zeros((spec["m"], spec["n"], 4))
+        F[..., 0] = _rng(spec["seed"]).standard_normal((spec["m"], spec["n"]))
+        A = qalg.from_comps(F)
     elif g == "perm":
         # generalised permutation matrix: A[i, p[i]] = unit quaternion phases[i]
         pidx = spec["p"]
@@ -182,9 +205,9 @@ def shape_of(spec):
     if not isinstance(spec, dict):
         return None
     g = spec.get("gen")
-    if g in ("gauss", "int", "psvd", "zeros", "real", "complex", "entry"):
+    if g in ("gauss", "int", "psvd", "zeros", "real", "complex", "entry", "realq"):
         return (spec["m"], spec["n"])
-    if g in ("herm", "unitary", "cI", "I_lowrank", "tri"):
+    if g in ("herm", "unitary", "cI", "I_lowrank", "tri", "hess", "tridiag_herm"):
         return (spec["n"], spec["n"])
     if g == "diagq":
         return (len(spec["vals"]), len(spec["vals"]))
